@@ -148,7 +148,8 @@ class World:
                 self.labels.add(f"add-{rel}")
                 if rel != "lower" and mypos is not None and mypos < len(order) - 1:
                     self.nontrivial = True
-                back = [tk for tk, when in sorted(self.graveyard.items()) if when < t and tk not in self.live and self.model.systems[self.all[tk].id] is None]
+                now = act.get("same") == 2      # ... or in THIS timestep ("go to the back of my priority group": remove + register again)
+                back = [tk for tk, when in sorted(self.graveyard.items()) if (when < t or now) and tk not in self.live and self.model.systems[self.all[tk].id] is None]
                 if act.get("same") and back:
                     # the very object that was removed in an EARLIER timestep is registered again (it has not run in this one)
                     tk = back[int(act.get("prio", 0)) % len(back)]
@@ -159,7 +160,7 @@ class World:
                     self.seq += 1
                     self.live[tk] = (obj.priority, self.seq)
                     self.events.append(("added", tk))
-                    self.labels.add("same-object-registered-again")
+                    self.labels.add("same-object-registered-again" + ("-within-the-timestep" if self.graveyard[tk] == t else ""))
                 elif len(self.all) < self.max_total:
                     if act.get("reuse") and self.free_ids:
                         self.labels.add("add-reused-id")
@@ -222,6 +223,8 @@ def run_case(case):
                     raise Violation("ran-after-removal", f"timestep {t} (cut short): system {x} ran after it was removed; events {ev}")
                 if k == "removed":
                     gone.add(x)
+                if k == "added":
+                    gone.discard(x)       # registered again: whether it first runs in this timestep or the next is left open
             continue
         done += 1
         ev = list(w.events)
@@ -250,6 +253,8 @@ def run_case(case):
                 ran.add(x)
             elif k == "removed":
                 gone.add(x)
+            elif k == "added":
+                gone.discard(x)       # registered again within the timestep: whether it runs (once) in this timestep is left open
         # (6) a timestep in which nothing changed follows C01 order exactly
         if not any(k != "run" for k, _ in ev):
             if runs != start:
@@ -264,7 +269,7 @@ def _action():
     rem = st.fixed_dictionaries({"a": st.just("remove"), "target": st.integers(0, 7)})
     win = st.sampled_from([None, None, None, [0, 1], [1, 1], [0, 2], [1, 2], [2, 3], [0, 5]])
     add = st.fixed_dictionaries({"a": st.just("add"), "prio": st.integers(0, 3), "reuse": st.booleans(), "win": win,
-                                 "same": st.sampled_from([False, False, True])})
+                                 "same": st.sampled_from([False, False, True, 2])})
     dup = st.fixed_dictionaries({"a": st.just("add_dup"), "target": st.integers(0, 7), "prio": st.integers(0, 3)})
     boom = st.just({"a": "raise"})
     return wone_of(rem, rem, rem, rem, add, add, dup, dup, boom)
